@@ -491,3 +491,7 @@ mod tests {
         );
     }
 }
+
+#[cfg(all(test, pendulum_project_ntpd_rs_verif))]
+#[path = "/verif/harness/statime-wire/hook_messages__header.rs"]
+mod verif_hook;
